@@ -2174,10 +2174,11 @@ sexp sexp_apply (sexp ctx, sexp proc, sexp args) {
     else
       sexp_raise("write-string: not a string or bytes", sexp_list1(ctx, _ARG1));
     if (_ARG2 == SEXP_TRUE)
-      _ARG2 = sexp_make_fixnum(sexp_bytes_length(tmp1));
+      _ARG2 = sexp_make_fixnum(sexp_stringp(_ARG1) ? (sexp_sint_t)sexp_string_size(_ARG1) : (sexp_sint_t)sexp_bytes_length(tmp1));
     else if (! sexp_fixnump(_ARG2))
       sexp_raise("write-string: not an integer", sexp_list1(ctx, _ARG2));
-    if (sexp_unbox_fixnum(_ARG2) < 0 || sexp_unbox_fixnum(_ARG2) > (sexp_sint_t)sexp_bytes_length(tmp1))
+    if (sexp_unbox_fixnum(_ARG2) < 0
+        || sexp_unbox_fixnum(_ARG2) > (sexp_stringp(_ARG1) ? (sexp_sint_t)sexp_string_size(_ARG1) : (sexp_sint_t)sexp_bytes_length(tmp1)))
       sexp_raise("write-string: not a valid string count", sexp_list2(ctx, tmp1, _ARG2));
     if (! sexp_oportp(_ARG3))
       sexp_raise("write-string: not an output-port", sexp_list1(ctx, _ARG3));
@@ -2187,7 +2188,7 @@ sexp sexp_apply (sexp ctx, sexp proc, sexp args) {
 #if SEXP_USE_GREEN_THREADS
     errno = 0;
 #endif
-    i = sexp_write_string_n(ctx, sexp_bytes_data(tmp1), sexp_unbox_fixnum(_ARG2), _ARG3);
+    i = sexp_write_string_n(ctx, sexp_stringp(_ARG1) ? sexp_string_data(_ARG1) : sexp_bytes_data(tmp1), sexp_unbox_fixnum(_ARG2), _ARG3);
 #if SEXP_USE_GREEN_THREADS
     if (i < sexp_unbox_fixnum(_ARG2) && errno == EAGAIN) {
       if (sexp_port_stream(_ARG3)) clearerr(sexp_port_stream(_ARG3));
